@@ -9,6 +9,7 @@ makes the evaluation *undecided* (Unknown), never wrong.
 from __future__ import annotations
 
 import itertools
+import re as _re
 
 from .interp import SymNS, Term, Var
 
@@ -102,7 +103,97 @@ def evaluate(t, env, dialect="sqlite"):
         return True if True in vals else NULL if NULL in vals else False
     if t.recv is None and lname in ("cast", "type_coerce", "label"):
         return ev(t.args[0] if lname != "label" else t.args[1])
+    # ---- strings -------------------------------------------------------------------------------------------------
+    if t.recv is not None and lname in ("startswith", "endswith", "contains", "like"):
+        x, pat = ev(t.recv), ev(t.args[0]) if t.args else NULL
+        if x is NULL or pat is NULL:
+            return NULL
+        if not isinstance(x, str) or not isinstance(pat, str):
+            raise Unknown(f"{lname} on non-strings")
+        esc = t.kwargs.get("escape")
+        if t.kwargs.get("autoescape") is True:
+            if lname == "like":
+                raise Unknown("like(autoescape=True)")
+            rx = _re.escape(pat)
+        else:
+            if esc is not None and not (isinstance(esc, str) and len(esc) == 1):
+                raise Unknown("escape character")
+            rx = _like_regex(pat, esc)
+        rx = {"startswith": rx + ".*", "endswith": ".*" + rx, "contains": ".*" + rx + ".*", "like": rx}[lname]
+        return _re.fullmatch(rx, x, _re.S) is not None
+    if t.recv is None and "func" in t.fn and lname in ("substr", "substring") and len(t.args) in (2, 3):
+        vals = [ev(a) for a in t.args]
+        if any(v is NULL for v in vals):
+            return NULL
+        if not isinstance(vals[0], str) or not all(isinstance(v, int) and not isinstance(v, bool) for v in vals[1:]):
+            raise Unknown("substr arguments")
+        if dialect == "sqlite":
+            return _sqlite_substr(*vals)
+        if vals[1] >= 1 and (len(vals) == 2 or vals[2] >= 0) and lname == "substr" and dialect in ("postgresql", "duckdb"):
+            return vals[0][vals[1] - 1:] if len(vals) == 2 else vals[0][vals[1] - 1:vals[1] - 1 + vals[2]]
+        raise Unknown(f"{n} with a non-positive start / negative length on {dialect}")
+    if t.recv is None and "func" in t.fn and lname == "instr" and len(t.args) == 2 and dialect == "sqlite":
+        a, b = ev(t.args[0]), ev(t.args[1])
+        if a is NULL or b is NULL:
+            return NULL
+        if not isinstance(a, str) or not isinstance(b, str):
+            raise Unknown("instr arguments")
+        return a.find(b) + 1  # https://sqlite.org/lang_corefunc.html#instr : 0 when not found; an empty needle is found at 1
+    if t.recv is None and "func" in t.fn and lname in ("length", "char_length") and len(t.args) == 1 and dialect in ("sqlite", "postgresql", "duckdb"):
+        a = ev(t.args[0])
+        if a is NULL:
+            return NULL
+        if not isinstance(a, str):
+            raise Unknown("length argument")
+        return len(a)
+    if t.recv is not None and lname == "collate" and len(t.args) == 1 and isinstance(t.args[0], str) and t.args[0].lower().endswith(("_bin", "_bin2", "_cs_as", "binary", "c")):
+        return ev(t.recv)  # a binary / case-sensitive collation: comparison by code point, as on Polars
+    if t.recv is None and lname == "literal" and t.args:
+        return ev(t.args[0])
     raise Unknown(f"SQL function {t.fn}")
+
+
+def _like_regex(pat, esc):
+    out, i = [], 0
+    while i < len(pat):
+        ch = pat[i]
+        if esc is not None and ch == esc:
+            if i + 1 >= len(pat):
+                raise Unknown("LIKE pattern ends with the escape character")
+            out.append(_re.escape(pat[i + 1]))
+            i += 2
+            continue
+        out.append(".*" if ch == "%" else "." if ch == "_" else _re.escape(ch))
+        i += 1
+    return "".join(out)
+
+
+def _sqlite_substr(s, p1, p2=None):
+    """substr(X, Y[, Z]) exactly as SQLite's substrFunc computes it (func.c): 1-based Y, Y < 0 counts from the right, Y = 0 is the
+    position before the first character, Z < 0 takes the characters before Y"""
+    n = len(s)
+    neg_len = False
+    if p2 is None:
+        p2 = n + abs(p1) + 1
+    elif p2 < 0:
+        p2, neg_len = -p2, True
+    if p1 < 0:
+        p1 += n
+        if p1 < 0:
+            p2 += p1
+            if p2 < 0:
+                p2 = 0
+            p1 = 0
+    elif p1 > 0:
+        p1 -= 1
+    elif p2 > 0:
+        p2 -= 1
+    if neg_len:
+        p1 -= p2
+        if p1 < 0:
+            p2 += p1
+            p1 = 0
+    return s[p1:p1 + p2]
 
 
 def compare(term, variables, spec, dialect="sqlite", domain=(NULL, 1, 2, 3)):
